@@ -391,13 +391,13 @@ func runHarness(l *Loaded, spec *CheckSpec, h *HarnessSpec, tier string, extraPa
 	} else if tier == "thorough" {
 		// every harness gets a wall-clock budget; a run that hits it is reported as truncated
 		// (what was explored held), never as a completed bound
-		// 40 minutes per property, shared by its harnesses (at least 2, at most 15 minutes each)
+		// 40 minutes per property, shared by its harnesses (at least 90 seconds, at most 15 minutes each)
 		per := 2400 / nSelected
 		if per > 900 {
 			per = 900
 		}
-		if per < 120 {
-			per = 120
+		if per < 90 {
+			per = 90
 		}
 		cfg.Deadline = time.Duration(per) * time.Second
 	} else {
